@@ -4,6 +4,7 @@ Both engines are instances of one kernel model (`distModel`); they differ in how
 are decoded (`RawSettings.toGridPy` / `toGridC`) and in whether the final threshold check is applied
 under `use_pruning` (`chk`).
 -/
+import Dtaiverif.Props.CBand
 import Dtaiverif.Proofs.Dist
 import Dtaiverif.Proofs.CostInst
 import Dtaiverif.Model.Settings
